@@ -6,6 +6,7 @@ Import ListNotations.
 From PyGql Require Import Spec.TraceSpec Exec.TraceModel Proofs.TraceProofs.
 From PyGql Require Import Exec.RuntimeMachine Exec.TraceDeferred Proofs.TraceDeferredProofs.
 From PyGql Require Import Exec.TraceTracer Proofs.TraceTracerProofs.
+From PyGql Require Import Exec.TraceLift Proofs.TraceLiftProofs Exec.TraceRequest Proofs.TraceRequestProofs.
 
 (* The executable checker used by the correspondence decides the declarative
    specification, for every configuration and every event sequence. *)
@@ -135,6 +136,67 @@ Proof.
 Qed.
 Print Assumptions C16_field_once_deferred.
 
+(* From one instrumentation and no middleware to k stacked instrumentations and
+   n middlewares, as a homomorphism on event words ([lift]: every hook fans out
+   over the stack -- starts 0..k-1, ends k-1..0 --, every resolver call gets
+   the bracket m(n-1)+..m0+ <call> m0-..m(n-1)-; sync middlewares around a
+   runtime-deferred resolver are left at submission, awaiting ones after the
+   value is there): the image of ANY trace that satisfies the specification
+   for (1, 0) satisfies it for (k, n). The images of the per-field words are
+   exactly the words of C16_middleware / C16_multi. *)
+Theorem C16_lift_preserves : forall k n aw ns text oc t,
+  1 <= k -> NoDup (map nd_path ns) ->
+  trace_spec (mkConfig 1 0 text oc aw ns) t ->
+  trace_spec (mkConfig k n text oc aw ns) (flat_map (lift k n aw ns) t).
+Proof. exact lift_preserves. Qed.
+Print Assumptions C16_lift_preserves.
+
+(* An argument-coercion failure is a resolver failure whose resolver and
+   middleware events are erased ([erase], fields start and end only): erasing
+   them in any trace that satisfies the specification gives a trace that
+   satisfies it with those fields re-classified as argument errors. *)
+Theorem C16_argerr_erase : forall m c t,
+  (forall nd, In nd (nodes_of c) -> m (nd_path nd) = true -> nd_out nd = OErr) ->
+  trace_spec c t -> trace_spec (remark_config m c) (erase m t).
+Proof. exact erase_preserves. Qed.
+Print Assumptions C16_argerr_erase.
+
+(* The deferred executor with k stacked instrumentations, n middlewares
+   (sync, or awaiting: aw) and argument-coercion failures: the decorated log
+   of every complete run of the C08/C09 machine -- every crash-free program
+   with distinct response paths, every admissible schedule, eager completions,
+   nested deferred values, mutations --, with the marked fields' resolver
+   events erased and lifted to (k, n), satisfies the specification. *)
+Theorem C16_field_once_deferred_full : forall k n aw argerr pr sigma s text oc,
+  1 <= k -> crash_free pr -> NoDup (map nd_path (nodes_prog pr)) -> argerr_ok argerr pr ->
+  is_exec oc = true -> run sigma pr = Some s -> pending (ms s) = [] ->
+  let c := cfg_full k n aw argerr pr text oc in
+  trace_spec c (stage_pre c ++ deferred_fields k n aw argerr pr s ++ stage_post c).
+Proof.
+  intros k n aw argerr pr sigma s text oc H1 H2 H3 H4 H5 H6 H7.
+  exact (deferred_full_ok k n aw argerr pr H1 H2 H3 H4 sigma s text oc H5 H6 H7).
+Qed.
+Print Assumptions C16_field_once_deferred_full.
+
+(* The whole request under a deferred runtime, as one theorem about the
+   composed model (stage machine of process_graphql_query around the lifted,
+   decorated machine log): for every outcome class (syntax, validation,
+   unknown operation, variable coercion, directive-argument coercion, success,
+   partial failure), text or AST, every k >= 1, n, sync or awaiting
+   middlewares, every program, schedule and eager-completion choice, the trace
+   satisfies the specification -- "in every runtime and completion order". *)
+Theorem C16_stage_and_fields : forall k n aw argerr pr sigma s text oc,
+  1 <= k -> crash_free pr -> NoDup (map nd_path (nodes_prog pr)) -> argerr_ok argerr pr ->
+  wf_request text oc -> run sigma pr = Some s -> pending (ms s) = [] ->
+  trace_spec (cfg_full k n aw argerr pr text oc) (request_deferred k n aw argerr pr text oc s)
+  /\ trace_ok (cfg_full k n aw argerr pr text oc) (request_deferred k n aw argerr pr text oc s) = true.
+Proof.
+  intros k n aw argerr pr sigma s text oc H1 H2 H3 H4 H5 H6 H7.
+  pose proof (request_deferred_ok k n aw argerr pr H1 H2 H3 H4 sigma s text oc H5 H6 H7) as H.
+  split; [exact H|apply trace_ok_decides; exact H].
+Qed.
+Print Assumptions C16_stage_and_fields.
+
 (* ApolloTracer / TimingTracer at any position i of the instrumentation stack:
    on every trace that satisfies the specification its hooks never fail
    (on_field_end never meets a field that was not started) and the resolver
@@ -248,3 +310,34 @@ Example C16_example_apollo :
     = Some [([0], true); ([0; 2], true); ([0; 4], true); ([6], true)]
   /\ tracer_fields 0 [FieldEnd 0 [0]; FieldStart 0 [0]] = None.
 Proof. vm_compute. split; reflexivity. Qed.
+
+(* non-vacuity of C16_stage_and_fields: two stacked instrumentations, two sync
+   middlewares, a deferred field, a synchronous one, an argument-coercion
+   failure ([5]) and a deferred ResolverError under the thread pool *)
+Example C16_example_request_deferred :
+  let pr := Prog false (FCons (Fld 0 (Some (O, O)) false (BObj (FCons (Fld 1 None false (BInt 1%Z)) FNil)))
+                       (FCons (Fld 5 None false BErr) (FCons (Fld 3 (Some (O, O)) false BErr) FNil))) in
+  let argerr := fun p => if path_eq_dec p [5] then true else false in
+  crash_free pr /\ NoDup (map nd_path (nodes_prog pr)) /\ argerr_ok argerr pr /\
+  match run [([3], O); ([0], O)] pr with
+  | Some s => pending (ms s) = [] /\
+      deferred_fields 2 2 false argerr pr s =
+      [FieldStart 0 [0]; FieldStart 1 [0]; MwEnter 1 [0]; MwEnter 0 [0]; MwExit 0 [0]; MwExit 1 [0];
+       FieldStart 0 [5]; FieldStart 1 [5]; FieldEnd 1 [5]; FieldEnd 0 [5];
+       FieldStart 0 [3]; FieldStart 1 [3]; MwEnter 1 [3]; MwEnter 0 [3]; MwExit 0 [3]; MwExit 1 [3];
+       Invoke [3]; Raise [3]; FieldEnd 1 [3]; FieldEnd 0 [3];
+       Invoke [0]; Return [0]; FieldEnd 1 [0]; FieldEnd 0 [0];
+       FieldStart 0 [0; 1]; FieldStart 1 [0; 1]; MwEnter 1 [0; 1]; MwEnter 0 [0; 1];
+       Invoke [0; 1]; Return [0; 1]; MwExit 0 [0; 1]; MwExit 1 [0; 1]; FieldEnd 1 [0; 1]; FieldEnd 0 [0; 1]]
+      /\ trace_ok (cfg_full 2 2 false argerr pr true OCPartial) (request_deferred 2 2 false argerr pr true OCPartial s) = true
+      /\ request_deferred 2 2 false argerr pr true OCDirective s =
+         [StageStart SQ 0; StageStart SQ 1; StageStart SP 0; StageStart SP 1; StageEnd SP 1; StageEnd SP 0;
+          StageStart SV 0; StageStart SV 1; StageEnd SV 1; StageEnd SV 0; StageEnd SQ 1; StageEnd SQ 0]
+  | None => False
+  end.
+Proof.
+  split; [reflexivity|]. split; [repeat constructor; cbn; intuition discriminate|].
+  split.
+  { intros nd Hin Hm. cbn in Hin. destruct Hin as [<-|[<-|[<-|[<-|[]]]]]; cbn in Hm |- *; try discriminate; reflexivity. }
+  vm_compute. repeat split; reflexivity.
+Qed.
